@@ -321,8 +321,14 @@ func gsub(t *rt.Thread, c *rt.GoCont) (rt.Cont, error) {
 	// copying the string until one substitution has actually taken place.  This
 	// is achieved by keeping the variable sj the same until bytes are written
 	// in the string builder.
+
+	// A pattern that starts with '^' can only match at the start of the
+	// subject, so at most one substitution takes place.
+	anchored := len(ptn) > 0 && ptn[0] == '^'
 	for ; matchCount != n; matchCount++ {
-		captures, usedCPU := pat.Match(string(s), si, t.UnusedCPU())
+		// MatchFromStart honours the anchor (Match would look for the rest of
+		// the pattern anywhere in the subject).
+		captures, usedCPU := pat.MatchFromStart(string(s), si, t.UnusedCPU())
 		t.RequireCPU(usedCPU)
 		if len(captures) == 0 {
 			break
@@ -349,6 +355,10 @@ func gsub(t *rt.Thread, c *rt.GoCont) (rt.Cont, error) {
 			si = start + 1
 		} else {
 			si = end
+		}
+		if anchored {
+			matchCount++
+			break
 		}
 	}
 	var res rt.Value
